@@ -484,7 +484,7 @@ func hook(name string, args ...interface{}) {
 			close(h.heldCh)
 			select {
 			case <-h.release:
-			case <-time.After(20 * time.Second):
+			case <-time.After(60 * time.Second):
 				st.mu.Lock()
 				h.expired = true
 				st.mu.Unlock()
@@ -765,7 +765,7 @@ var runTag = fmt.Sprintf("p%dt%d", os.Getpid(), time.Now().UnixNano()%100000)
 
 type c06Scn struct {
 	ID       int    `json:"id"`
-	Kind     string `json:"kind"`  // refuse | synhole | blackhole | slow | healthy | closing | mixed | switch | stall | stallclose | spool*
+	Kind     string `json:"kind"`  // refuse | synhole | blackhole | slow | healthy | closing | mixed | switch | stall | stallclose | addr* | spool*
 	Route    string `json:"route"` // all | first | chash
 	ConnBuf  int    `json:"connbuf"`
 	IoBuf    int    `json:"iobuf"`
@@ -776,11 +776,12 @@ type c06Scn struct {
 	CloseAft int64  `json:"close_after"`
 	StallMs  int    `json:"stall_ms"` // kind stall: how long the endpoint keeps not reading once the writer is blocked
 	// kinds spoolbh | spoolstall | spoolclose | spoolgate (spooling enabled, TestC06Spool)
-	Backlog  int `json:"backlog"`   // lines handed while the endpoint is absent (they go to the disk spool)
-	ReconnMs int `json:"reconn_ms"` // reconnect period (= the period of the relay's slow flags)
-	Cycles   int `json:"cycles"`    // how many times a line taken from the spool must have met a full conn.In
-	Burst    int `json:"burst"`     // lines handed back to back per cycle during the replay
-	Post     int `json:"post"`      // lines handed after the endpoint's last move
+	Backlog  int  `json:"backlog"`   // lines handed while the endpoint is absent (they go to the disk spool)
+	ReconnMs int  `json:"reconn_ms"` // reconnect period (= the period of the relay's slow flags)
+	Cycles   int  `json:"cycles"`    // how many times a line taken from the spool must have met a full conn.In
+	Burst    int  `json:"burst"`     // lines handed back to back per cycle during the replay
+	Post     int  `json:"post"`      // lines handed after the endpoint's last move
+	Bg       bool `json:"bg"`        // kinds addr*: traffic goes on while the address update is in progress
 	Switches []struct {
 		At   int    `json:"at"`
 		Mode string `json:"mode"`
@@ -850,6 +851,9 @@ func TestC06(t *testing.T) {
 }
 
 func runC06(s c06Scn) []ev {
+	if strings.HasPrefix(s.Kind, "addr") {
+		return runC06Addr(s)
+	}
 	evs := []ev{{"ev": "scn", "scn": s.ID, "kind": s.Kind, "prop": "C06", "spool": false}}
 	rname := fmt.Sprintf("c06%s_s%d", runTag, s.ID)
 	prefix := rname + "."
@@ -1122,6 +1126,235 @@ wait:
 	return evs
 }
 
+// ---------------------------------------------------------------- C06, address update
+//
+// The destination's address is changed at run time (Route.UpdateDestination addr=..., what `modDest .. addr=` does)
+// while the relay holds a connection to the previous endpoint:
+//
+//	addrbh     the previous endpoint accepts and never reads; traffic is handed until conn.In, the io buffer and the
+//	           kernel buffers are full and the connection writer is really blocked (nothing written for StallMs while
+//	           lines keep being dropped and counted), then the address is changed to a healthy endpoint
+//	addrstall  the same, but the previous endpoint reads normally at first and then stops reading
+//	addrok     the previous endpoint is healthy all along (control: nothing is blocked)
+//
+// Every Route.Dispatch call before, (Bg: during,) and after the update is timed (event lat).  Without Bg no line is
+// handed while the update is in progress, so the lines handed after it has returned all belong to the connection to
+// the new, healthy endpoint: phase steady=healthy for them (received by the new endpoint or counted as slow_conn under
+// the destination's new key).  With Bg, or when the update has not returned, no identity is declared.
+func runC06Addr(s c06Scn) []ev {
+	evs := []ev{{"ev": "scn", "scn": s.ID, "kind": s.Kind, "prop": "C06", "spool": false}}
+	rname := fmt.Sprintf("c06a%s_s%d", runTag, s.ID)
+	prefix := rname + "."
+	suffix := mkSuffix(s.LineLen)
+	eOld := newEndpoint(prefix, suffix, s.Lines, freePort(), s.RcvBuf)
+	eNew := newEndpoint(prefix, suffix, s.Lines, freePort(), 0)
+	keep(eOld)
+	keep(eNew)
+	if s.Kind == "addrbh" {
+		atomic.StoreInt32(&eOld.mode, mBlackhole)
+	}
+	if err := eOld.up(); err != nil {
+		return append(evs, ev{"ev": "timeout", "scn": s.ID, "what": "listen: " + err.Error()})
+	}
+	if err := eNew.up(); err != nil {
+		return append(evs, ev{"ev": "timeout", "scn": s.ID, "what": "listen: " + err.Error()})
+	}
+	d := newDest(rname, eOld.addr(), "", false, s.FlushMs, 50, s.ConnBuf, s.IoBuf, 100, time.Microsecond)
+	oldKey := d.Key
+	baseOld := readCounters(oldKey)
+	m, _ := matcher.New("", "", "", "", "", "")
+	var r route.Route
+	switch s.Route {
+	case "first":
+		r, _ = route.NewSendFirstMatch(rname, m, []*destination.Destination{d})
+	case "chash":
+		r, _ = route.NewConsistentHashing(rname, m, []*destination.Destination{d})
+	default:
+		r, _ = route.NewSendAllMatch(rname, m, []*destination.Destination{d})
+	}
+	if !poll(20*time.Second, func() bool { return d.Snapshot().Online }) {
+		return append(evs, ev{"ev": "timeout", "scn": s.ID, "what": "online"})
+	}
+	tr := &timedRoute{r: r, prefix: prefix, suffix: suffix}
+
+	info := ev{"ev": "addrupd", "scn": s.ID, "kind": s.Kind, "bg": s.Bg, "saturated": false, "upd_returned": false,
+		"flush_ms": s.FlushMs, "old_key": oldKey, "route": s.Route}
+	var imu sync.Mutex
+	set := func(k string, v interface{}) { imu.Lock(); info[k] = v; imu.Unlock() }
+	var mark, post int // lines handed before the update had returned / after it
+	var newKey string
+	var baseNew counters
+	updReturned := false
+	done := make(chan struct{})
+	go func() {
+		defer close(done)
+		i := 0
+		pre := s.Lines / 8
+		if s.Kind != "addrbh" {
+			for i < pre {
+				i++
+				tr.hand(i)
+			}
+		}
+		if s.Kind != "addrok" {
+			// fill the path to the previous endpoint until its writer is blocked (same criterion as kind stall)
+			atomic.StoreInt32(&eOld.mode, mBlackhole)
+			t0 := time.Now()
+			c0 := readCounters(oldKey)
+			hold := time.Duration(s.StallMs) * time.Millisecond
+			pace := hold / 1500
+			if pace < 200*time.Microsecond {
+				pace = 200 * time.Microsecond
+			}
+			outSeen, stableSince, dropsSeen, dropsStable := c0.out, t0, c0.slowConn+c0.down, 0
+			saturated, satAt := false, 0
+			for i < s.Lines-s.Post-s.Post && time.Since(t0) < 90*time.Second {
+				i++
+				tr.hand(i)
+				c := readCounters(oldKey)
+				now := time.Now()
+				if c.out != outSeen {
+					outSeen, stableSince, dropsStable = c.out, now, 0
+				}
+				if dd := c.slowConn + c.down; dd != dropsSeen {
+					if dropsStable == 0 {
+						satAt = i
+					}
+					dropsStable += int(dd - dropsSeen)
+					dropsSeen = dd
+					if now.Sub(stableSince) >= hold && dropsStable >= 50 {
+						saturated = true
+						break
+					}
+					time.Sleep(pace)
+				}
+			}
+			held := time.Since(stableSince)
+			if !saturated {
+				held = 0
+			}
+			set("saturated", saturated)
+			set("blocked_at", satAt)
+			set("fill_ms", int(stableSince.Sub(t0)/time.Millisecond))
+			set("held_ms", int(held/time.Millisecond))
+		}
+		cPre := readCounters(oldKey).sub(baseOld)
+		set("pre_handed", i)
+		set("pre_out", int(cPre.out))
+		set("pre_slow_conn", int(cPre.slowConn))
+		set("pre_down", int(cPre.down))
+		set("pre_online", d.Snapshot().Online)
+		// the operator points the destination at the healthy endpoint
+		updDone := make(chan error, 1)
+		tU := time.Now()
+		go func() { updDone <- r.UpdateDestination(0, map[string]string{"addr": eNew.addr()}) }()
+		var updErr error
+		ret := false
+		for !ret && time.Since(tU) < 6*time.Second {
+			if s.Bg && i < s.Lines-s.Post {
+				i++
+				tr.hand(i)
+				select {
+				case updErr = <-updDone:
+					ret = true
+				default:
+				}
+			} else {
+				select {
+				case updErr = <-updDone:
+					ret = true
+				case <-time.After(6*time.Second - time.Since(tU)):
+				}
+			}
+		}
+		set("upd_returned", ret)
+		set("upd_ms", int(time.Since(tU)/time.Millisecond))
+		if updErr != nil {
+			set("upd_err", updErr.Error())
+		}
+		mark = i
+		if ret && updErr == nil {
+			newKey = d.Snapshot().Key
+			baseNew = readCounters(newKey)
+			updReturned = true
+			set("new_key", newKey)
+		}
+		// traffic goes on
+		for j := 0; j < s.Post && i < s.Lines; j++ {
+			i++
+			tr.hand(i)
+			post++
+			if j%100 == 99 {
+				time.Sleep(time.Millisecond)
+			}
+		}
+	}()
+	stuck := false
+	tStart := time.Now()
+wait:
+	for {
+		select {
+		case <-done:
+			break wait
+		case <-time.After(50 * time.Millisecond):
+			if p := tr.pending(); p > 12*time.Second {
+				stuck = true
+				if int64(p) > atomic.LoadInt64(&tr.maxNs) {
+					atomic.StoreInt64(&tr.maxNs, int64(p))
+				}
+				atomic.AddInt64(&tr.over, 1)
+				break wait
+			}
+			if time.Since(tStart) > 10*time.Minute {
+				return append(evs, ev{"ev": "timeout", "scn": s.ID, "what": "traffic"})
+			}
+		}
+	}
+	h := int(atomic.LoadInt64(&tr.handed))
+	evs = append(evs, ev{"ev": "lat", "scn": s.ID, "calls": h, "max_us": int(atomic.LoadInt64(&tr.maxNs) / 1000),
+		"over_bound": int(atomic.LoadInt64(&tr.over)), "stuck": stuck})
+	imu.Lock()
+	cp := ev{}
+	for k, v := range info {
+		cp[k] = v
+	}
+	imu.Unlock()
+	evs = append(evs, cp)
+	if stuck {
+		eOld.down() // lets a writer that is parked on the previous endpoint go away
+		return evs
+	}
+	// the previous endpoint: no identity (a black hole is not a steady state of the property)
+	cOld := readCounters(oldKey).sub(baseOld)
+	evs = append(evs, ev{"ev": "phase", "scn": s.ID, "dest": 0, "endpoint": "addr-old", "steady": "", "handed": mark,
+		"received": int(atomic.LoadInt64(&eOld.distinct)), "total": int(atomic.LoadInt64(&eOld.total)),
+		"malformed": int(atomic.LoadInt64(&eOld.malformed)),
+		"slow_conn": int(cOld.slowConn), "slow_spool": int(cOld.slowSpool), "down": int(cOld.down), "out": int(cOld.out),
+		"online": d.Snapshot().Online, "quiesced": true, "accepted": int(atomic.LoadInt64(&eOld.accepted))})
+	// the new endpoint, healthy the whole time: the lines handed after the update had returned
+	steady := ""
+	quiesced := true
+	var cNew counters
+	if updReturned {
+		if !s.Bg {
+			steady = "healthy"
+		}
+		quiesced = pollProgress(30*time.Second, 10*time.Minute, func() bool {
+			c := readCounters(newKey).sub(baseNew)
+			return atomic.LoadInt64(&eNew.distinct)+c.slowConn+c.down >= int64(post)
+		}, func() int64 { c := readCounters(newKey); return atomic.LoadInt64(&eNew.total) + c.slowConn + c.down })
+		time.Sleep(50 * time.Millisecond)
+		cNew = readCounters(newKey).sub(baseNew)
+	}
+	evs = append(evs, ev{"ev": "phase", "scn": s.ID, "dest": 0, "endpoint": "addr-new", "steady": steady, "handed": post,
+		"received": int(atomic.LoadInt64(&eNew.distinct)), "total": int(atomic.LoadInt64(&eNew.total)),
+		"malformed": int(atomic.LoadInt64(&eNew.malformed)),
+		"slow_conn": int(cNew.slowConn), "slow_spool": int(cNew.slowSpool), "down": int(cNew.down), "out": int(cNew.out),
+		"online": d.Snapshot().Online, "quiesced": quiesced, "accepted": int(atomic.LoadInt64(&eNew.accepted))})
+	eOld.down()
+	return evs
+}
+
 // ---------------------------------------------------------------- C06, spooling enabled
 //
 // Outage first (the handed lines go to the disk spool), then the endpoint comes back, the destination
@@ -1291,7 +1524,7 @@ func runC06Spool(s c06Scn, spoolRoot string) []ev {
 			outcome := "fired"
 			select {
 			case <-hold.fired:
-			case <-time.After(30 * time.Second):
+			case <-time.After(45 * time.Second):
 				outcome = "not-fired"
 				select {
 				case <-hold.heldCh:
